@@ -10,7 +10,9 @@ from __future__ import annotations
 import copy
 import json
 import os
+import pickle
 import re
+import struct
 from typing import Dict, List, Optional
 
 from jsonargparse import ActionConfigFile, ArgumentParser, Namespace, lazy_instance
@@ -108,13 +110,103 @@ def strip_shtab(key):
     return tuple(re.sub(r"\s+", " ", SHTAB.sub("", x)) if isinstance(x, str) else x for x in key)
 
 
+class Pristine:
+    """Reference outcomes from a process without history. A server process is forked before the shard's first
+    parse; for every request it forks a child that builds fresh parsers, runs the one step and reports the
+    outcome key, so neither the server nor any reference run has ever seen another call. Outcomes are cached
+    per (variant, exit_on_error, step): a reference has no history by construction, so it is a function of those."""
+
+    def __init__(self, workdir):
+        self.cache = {}
+        self.forks = 0
+        req_r, self.req_w = os.pipe()
+        self.res_r, res_w = os.pipe()
+        self.pid = os.fork()
+        if self.pid == 0:
+            try:
+                os.close(self.req_w)
+                os.close(self.res_r)
+                built = {}  # parsers constructed, never asked anything: construction is not part of a call history
+                while True:
+                    msg = _recv(req_r)
+                    if msg is None:
+                        break
+                    variant, eoe, step = msg
+                    bk = (tuple(sorted(variant.items())), eoe)
+                    if bk not in built:
+                        built[bk] = (make_parser(variant, eoe, workdir), make_other(eoe))
+                    child = os.fork()
+                    if child == 0:
+                        code = 0
+                        try:
+                            factory = lambda: make_parser(variant, eoe, workdir)  # noqa: E731
+                            o = run_step(built[bk][0], built[bk][1], step, workdir, factory)
+                            _send(res_w, ("ok", outcome_key(o, workdir)))
+                        except BaseException as ex:  # noqa: BLE001
+                            _send(res_w, ("error", repr(ex)))
+                            code = 1
+                        os._exit(code)
+                    os.waitpid(child, 0)
+            finally:
+                os._exit(0)
+        os.close(req_r)
+        os.close(res_w)
+
+    def outcome(self, variant, eoe, step):
+        key = pickle.dumps((sorted(variant.items()), eoe, step))
+        if key not in self.cache:
+            _send(self.req_w, (variant, eoe, step))
+            self.cache[key] = _recv(self.res_r)
+            self.forks += 1
+        return self.cache[key]
+
+    def close(self):
+        try:
+            os.close(self.req_w)
+            os.waitpid(self.pid, 0)
+        except OSError:
+            pass
+
+
+def _send(fd, obj):
+    data = pickle.dumps(obj)
+    os.write(fd, struct.pack("<I", len(data)))
+    view = memoryview(data)
+    while view:
+        n = os.write(fd, view[:65536])
+        view = view[n:]
+
+
+def _recv(fd):
+    head = b""
+    while len(head) < 4:
+        chunk = os.read(fd, 4 - len(head))
+        if not chunk:
+            return None
+        head += chunk
+    (n,) = struct.unpack("<I", head)
+    data = b""
+    while len(data) < n:
+        chunk = os.read(fd, n - len(data))
+        if not chunk:
+            return None
+        data += chunk
+    return pickle.loads(data)
+
+
 def gen_history(rng, variant, maxlen):
     n = rng.randrange(2, maxlen + 1)
     hist = []
+    readers = [o for o in OBJECTS if all(isinstance(v, dict) and set(v) == {"init_args"} for v in o.values())]
     for k in range(n):
         r = rng.random()
         # bias: failing / state-setting steps early, reading steps later
-        if r < 0.30:
+        if k and rng.random() < 0.3:
+            # a step that relies on what is known about a class-typed key without naming the class: the reader of leaked state
+            op = rng.choice(["parse_object", "parse_object", "parse_string"])
+            obj = rng.choice(readers)
+            hist.append((op, obj if op == "parse_object" else json.dumps(obj), rng.random() < 0.5))
+        elif r < 0.30:
             pool = GOOD_ARGV + (SUB_ARGV[:4] if variant["sub"] else [])
             hist.append(("parse_args", rng.choice(pool)))
         elif r < 0.48:
@@ -125,8 +217,10 @@ def gen_history(rng, variant, maxlen):
             hist.append(("parse_args", rng.choice(pool)))
         elif r < 0.66:
             hist.append(("parse_object", rng.choice(OBJECTS), rng.random() < 0.3))
-        elif r < 0.72:
+        elif r < 0.70:
             hist.append(("parse_string", json.dumps(rng.choice(OBJECTS)), rng.random() < 0.3))
+        elif r < 0.72:
+            hist.append(("parse_path", json.dumps(rng.choice(OBJECTS))))
         elif r < 0.77:
             hist.append(("parse_env", rng.choice(ENVS)))
         elif r < 0.81:
@@ -154,6 +248,11 @@ def run_step(p, other, step, workdir, fresh_factory):
         return call(p.parse_object, copy.deepcopy(step[1]), **({"defaults": False} if step[2] else {}))
     if op == "parse_string":
         return call(p.parse_string, step[1], **({"defaults": False} if step[2] else {}))
+    if op == "parse_path":
+        pth = os.path.join(workdir, "step.json")
+        with open(pth, "w") as f:
+            f.write(step[1])
+        return call(p.parse_path, pth)
     if op == "parse_env":
         return call(p.parse_env, dict(step[1]))
     if op == "get_defaults":
@@ -230,6 +329,17 @@ def case(ctx, i, rng):
             sig = f"diverges-at/{kind}/after/" + "+".join(sorted(set(ctx._c09_kinds[-k:])) if k else ["nothing"])[:120]
             ctx.violation("history", sig, dict(variant=variant, exit_on_error=eoe, history=[short(s, 300) for s in hist[: k + 1]], step=k, reused_parser=short(a, 700), fresh_parser=short(b, 700)))
             break
+        # the same step in a process that never made another call: state kept outside the parser (module globals,
+        # context variables, caches) would influence the fresh parser above just the same
+        status, ref = ctx._c09_pristine.outcome(variant, eoe, step)
+        ctx.count("mon.steps_compared_with_pristine_process")
+        if status != "ok":
+            ctx.inconclusive(f"pristine reference failed: {short(ref, 300)}")
+            break
+        if strip_shtab(tuple(ref)) != strip_shtab(b):
+            sig = f"process-state-diverges-at/{kind}/after/" + ("+".join(sorted(set(ctx._c09_kinds[-k:]))) if k else "earlier-cases-only")[:120]
+            ctx.violation("history", sig, dict(variant=variant, exit_on_error=eoe, history=[short(s, 300) for s in hist[: k + 1]], step=k, fresh_parser_after_history=short(b, 700), fresh_parser_in_pristine_process=short(ref, 700)))
+            break
         ctx._c09_kinds.append(kind)
         prev_kind = kind
     if i < 2:
@@ -240,6 +350,11 @@ def run_shard(ctx):
     for k in list(os.environ):
         if k.startswith(("APP_", "OTHER_")):
             del os.environ[k]
-    for i, rng in ctx.cases():
-        ctx._c09_kinds = []
-        case(ctx, i, rng)
+    ctx._c09_pristine = Pristine(ctx.workdir)
+    try:
+        for i, rng in ctx.cases():
+            ctx._c09_kinds = []
+            case(ctx, i, rng)
+    finally:
+        ctx.count("ev.pristine_reference_processes", ctx._c09_pristine.forks)
+        ctx._c09_pristine.close()
